@@ -166,6 +166,9 @@ def create_flow_instance(
     for idx, param in enumerate(flow_config.parameters):
         if param.name in event_arguments:
             val = event_arguments[param.name]
+        elif f"${idx}" in event_arguments:
+            # The value was given by position: the default is not needed (nor evaluated)
+            val = event_arguments[f"${idx}"]
         else:
             val = (
                 eval_expression(param.default_value_expr, {})
